@@ -60,7 +60,7 @@ def check_filter(ctx, text, opts, layout):
             v = getattr(str, opts['identifier_case'])(v)
         if opts.get('truncate_strings') and tt is T.Literal.String.Single:
             n = opts['truncate_strings']
-            # the body is what stands between the two delimiting quotes (the implementation's special case for a value that STARTS with two quotes is KF-C08-9)
+            # the body is what stands between the two delimiting quotes (the former special case for a value that STARTS with two quotes was KF-C08-F1, repaired by 465bc40)
             q, inner = "'", v[1:-1]
             if len(inner) > n:
                 v = q + inner[:n] + opts.get('truncate_char', '[...]') + q
@@ -273,7 +273,7 @@ def truncate_edge_cases(ctx):
 def truncate_reference(text, opts, quirk=False):
     """the input text with every single-quoted literal longer than the limit replaced by quote + first N characters of its body + marker + quote — the
     property's first clause read literally (the body is what stands between the two delimiting quotes).  quirk=True: what filters/tokens.py computes for a
-    literal whose value starts with two quotes (it takes '' as the delimiter on BOTH sides: KF-C08-9)"""
+    literal whose value starts with two quotes (it took '' as the delimiter on BOTH sides: KF-C08-F1, repaired by 465bc40 — kept as the regression's reading)"""
     n, ch = opts['truncate_strings'], opts.get('truncate_char', '[...]')
     out = []
     for tt, v in oracles.lex(text):
@@ -475,9 +475,7 @@ def classify(f, kf):
             missing_hint = f.get('only_hints_differ') and f.get('hints_got', 0) < f.get('hints_expected', 0)
             if missing_hint and hint_after_comment_with_gap(f['input']):
                 return k['id']
-        if k['id'] == 'KF-C08-9' and f.get('truncation') == 'quirk':
-            # exactly the text the two-quote special case of TruncateStringFilter computes, and that is not the literal reading
-            return k['id']
+        # (truncation == 'quirk' — the text the former two-quote special case computed, KF-C08-F1 — is a violation again since fix 465bc40: never classified)
         if k['id'] == 'KF-C08-4' and f.get('truncation') == 'spec':
             # the filter did exactly what the first clause says (first N characters + marker between the quotes); that the result no longer lexes as the
             # expected tokens is the conflict of the two clauses: the cut fell inside an escape, or the marker itself carries a quote/backslash
@@ -503,6 +501,8 @@ def classify(f, kf):
 def replay_known(ctx, k):
     for w in k.get('witnesses', []):
         out = sqlparse.format(w['input'], **w['options'])
+        if k['id'] == 'KF-C08-F1' and truncation_verdict(w['input'], w['options'], out) == 'quirk':
+            return True            # the two-quote special case of TruncateStringFilter is back
         if 'expected_output' in w and out != w['expected_output']:
             return True
         if 'buggy_output' in w and out == w['buggy_output']:
